@@ -2,14 +2,17 @@
 (***************************************************************************)
 (* Trace validation of test selection (C12, code -> spec).  One case = one  *)
 (* configured project (or one fabricated test list) queried several times:  *)
-(*   defs     the tests as defined: [name, prj, prio, suites]               *)
+(*   defs     the tests as defined: [name, prj, prio, suites, nc, pc]       *)
 (*   base     the names listed by `meson test --list` without any filter    *)
-(*   queries  [inc, exc, n, out]: selectors given with --suite / --no-suite,*)
+(*   queries  [inc, exc, args, n, out]: selectors given with --suite /      *)
+(*            --no-suite, positional test-name arguments (characters),      *)
 (*            n = 0: no --slice, out = <<names listed>>;                    *)
 (*            n > 0: out[i] = names listed with --slice i/n, i = 1..n       *)
 (* Accepted iff base is a priority-ordered permutation of defs, every       *)
-(* unsliced listing is TestSelect!Filter of base, and the n listings of a   *)
-(* sliced query partition that selection (any partition is allowed).        *)
+(* unsliced listing is TestSelect!Selected of base (each test once), and    *)
+(* the n listings of a sliced query partition that selection (any partition *)
+(* is allowed).  When a name argument matches none of the candidate tests   *)
+(* the command may instead refuse and list nothing.                         *)
 (***************************************************************************)
 EXTENDS TestSelect, TLC, Json, IOUtils
 
@@ -20,12 +23,15 @@ vars == <<i, done>>
 Names(ts) == [j \in 1..Len(ts) |-> ts[j].name]
 DefOf(c, nm) == CHOOSE d \in Elems(c.defs) : d.name = nm
 
+AllEmpty(out) == \A p \in 1..Len(out) : out[p] = <<>>
 BadQuery(c, baseTests) ==
     {q \in 1..Len(c.queries) :
         LET Q == c.queries[q]
-            want == Names(Filter(baseTests, Q.inc, Q.exc))
-        IN IF Q.n = 0 THEN Q.out # <<want>>
-           ELSE ~(Len(Q.out) = Q.n /\ Partitions(Q.out, want))}
+            cand == Filter(baseTests, Q.inc, Q.exc)
+            want == Names(ByArgs(cand, Q.args))
+            refused == Unmatched(cand, Q.args) /\ AllEmpty(Q.out)
+        IN IF Q.n = 0 THEN ~(Q.out = <<want>> \/ refused)
+           ELSE ~((Len(Q.out) = Q.n /\ Partitions(Q.out, want)) \/ refused)}
 
 Judge(c) ==
     LET okBase == /\ NoDupSeq(c.base) /\ NoDupSeq(Names(c.defs))
@@ -38,8 +44,10 @@ Judge(c) ==
                ELSE IF bad # {}
                     THEN LET q == CHOOSE q \in bad : \A p \in bad : q <= p
                              Q == c.queries[q]
-                         IN [id |-> c.id, clause |-> IF Q.n = 0 THEN "SuiteSelection" ELSE "SlicesPartition",
-                             query |-> q, expected |-> Names(Filter(baseTests, Q.inc, Q.exc))]
+                         IN [id |-> c.id,
+                             clause |-> IF Q.n > 0 THEN "SlicesPartition"
+                                        ELSE IF Q.args # <<>> THEN "NameArgumentsSelectEachOnce" ELSE "SuiteSelection",
+                             query |-> q, expected |-> Names(Selected(baseTests, Q.inc, Q.exc, Q.args))]
                ELSE [id |-> c.id, clause |-> "ok", query |-> 0, expected |-> <<>>]
 
 Init == i \in 1..Len(Cases) /\ done = FALSE
